@@ -176,7 +176,7 @@ def scan_one(job):
                 hits[pid] = ['CRASH:' + type(e).__name__]
                 continue
             v = sorted(set(('%s%s' % (i.rule, '?' if i.verdict == 'undecided' else '')) for i in insts if i.verdict in ('violation', 'undecided')
-                           and not (pid == 'C04' and i.rule == 'CV1' and i.key == 'SchedulerCore::reschedule_queue|notify_one')))
+                           and not (pid == 'C04' and i.rule == 'CV1' and i.key == 'SchedulerCore::reschedule_queue|notify')))
             if v:
                 hits[pid] = v
         res['status'] = 'reported' if hits else 'silent'
